@@ -38,8 +38,22 @@ pub fn run(args: &Args) {
       out.count(&format!("factories={}/{}", cfg.default_jsx_factory.is_some(), cfg.default_jsx_fragment_factory.is_some()));
     }
     let linter = mk_linter(rules_by_codes(&codes), &Words::default());
-    let spec = spec_for(ext);
-    let mt = MediaType::from_specifier(&spec);
+    // the media type is the caller's word, whatever the specifier looks like: every third case the two are drawn
+    // independently (Unknown with a .ts name, TypeScript with a .js name, no extension at all, ...)
+    let (spec, mt) = if case_no % 3 == 1 {
+      out.count("media-type=independent-of-specifier");
+      let name = ["t.ts", "t.js", "t.tsx", "t.jsx", "t.mts", "t.cjs", "t.d.ts", "t", "t.xyz", "t.json", "dir.ts/t"][crng.below(11)];
+      let mts = [MediaType::Unknown, MediaType::JavaScript, MediaType::TypeScript, MediaType::Tsx, MediaType::Jsx, MediaType::Mjs, MediaType::Cjs, MediaType::Mts, MediaType::Cts, MediaType::Unknown];
+      let fitting = [MediaType::JavaScript, MediaType::Jsx, MediaType::Unknown];
+      // JSX programs need a media type with JSX syntax to parse at all; Unknown is what is interesting there
+      let mt = if jsx_case { [MediaType::Tsx, MediaType::Jsx, MediaType::Unknown, MediaType::JavaScript][crng.below(4)] } else if ext == "ts" { mts[crng.below(mts.len())] } else { fitting[crng.below(3)] };
+      (deno_ast::ModuleSpecifier::parse(&format!("file:///{}", name)).unwrap(), mt)
+    } else {
+      let spec = spec_for(ext);
+      let mt = MediaType::from_specifier(&spec);
+      (spec, mt)
+    };
+    out.count(&format!("media-type={:?}", mt));
     // every third case: an external linter takes part, through both entry points alike
     let external: Option<ExternalLinterCb> = if case_no % 3 == 2 {
       out.count("external=yes");
@@ -64,7 +78,10 @@ pub fn run(args: &Args) {
     });
     let meta = json!({"case": case_no, "src": df.src, "ext": ext, "rules": if codes.len() > 40 { json!("all") } else { json!(codes) }, "jsx_factory": cfg.default_jsx_factory, "jsx_fragment_factory": cfg.default_jsx_fragment_factory, "external": external.is_some()});
     match (a, parsed) {
-      (Ok(Ok((_ps, d1))), Ok(ps2)) => {
+      (Ok(Ok((ps1, d1))), Ok(ps2)) => {
+        if ps1.media_type() != mt || ps1.specifier() != &spec {
+          out.found("C16", "parsed-source-of-lint_file-has-another-media-type-or-specifier", &df.src, json!({"meta": meta, "asked": format!("{:?}", mt), "got": format!("{:?}", ps1.media_type())}));
+        }
         let d1 = conv_all(&d1);
         let b = std::panic::catch_unwind(std::panic::AssertUnwindSafe(|| linter.lint_with_ast(&ps2, cfg.clone(), external.clone())));
         match b {
